@@ -360,21 +360,23 @@ Proof.
   - exact H.
 Qed.
 
-Lemma next_token_of_nocap txt st t r s :
+Lemma cap_of_nocap txt st t r s :
   next_token_nocap txt st = LTok t r s -> (length txt - length r <= 2045)%nat ->
-  next_token txt st = LTok t r s.
+  next_token_cap cap txt st = LTok t r s.
 Proof.
-  unfold next_token_nocap, next_token. intros H Hc.
+  unfold next_token_nocap, next_token_cap. intros H Hc.
   eapply lex_loop_iters; [exact H|]. rewrite cap_val. unfold mu.
   pose proof (rank_le3 st txt). apply lex_loop_len in H. lia.
 Qed.
 
+Lemma next_token_of_nocap txt st t r s :
+  next_token_nocap txt st = LTok t r s -> (length txt - length r <= 2045)%nat ->
+  next_token txt st = LTok t r s.
+Proof. which_lexer. first [apply cap_of_nocap | intros H _; exact H]. Qed.
+
 Lemma toks_len lex (L : forall txt st t r s, lex txt st = LTok t r s -> (length r <= length txt)%nat) :
   forall a sa ts b sb, Toks lex a sa ts b sb -> (length b <= length a)%nat.
 Proof. induction 1; [lia|]. apply L in H. lia. Qed.
-
-Lemma nocap_len txt st t r s : next_token_nocap txt st = LTok t r s -> (length r <= length txt)%nat.
-Proof. unfold next_token_nocap. apply lex_loop_len. Qed.
 
 Lemma toks_cap a sa ts b sb : Toks next_token_nocap a sa ts b sb ->
   (length a - length b <= 2045)%nat -> Toks next_token a sa ts b sb.
@@ -593,13 +595,15 @@ Theorem zone_roundtrip_last o lines last rs :
 Proof.
   intros Hl Hlast Hlen Z Hok Hd. destruct (toks_last_line last Hlast) as (rem & st & HT & HE).
   pose proof (toks_len _ nocap_len _ _ _ _ _ HT) as Hrem.
-  unfold parse.
-  eapply (zone_last_line next_token good_short); eauto.
-  - intros l rest H. unfold good_short in H. apply andb_true_iff in H as [H1 H2].
-    apply toks_cap; [now apply toks_line|]. rewrite app_length. unfold short_line in H2. apply N.leb_le in H2. lia.
-  - exact next_token_ok.
-  - apply toks_cap; [exact HT|lia].
-  - rewrite next_token_cap_refines; [exact HE|]. apply next_token_short. lia.
+  assert (GT : forall l rest, good_short l = true ->
+            Toks next_token (render_line l ++ rest) SStartLine (line_tokens l) rest SStartLine).
+  { intros l rest H. unfold good_short in H. apply andb_true_iff in H as [H1 H2].
+    apply toks_cap; [now apply toks_line|]. rewrite app_length. unfold short_line in H2. apply N.leb_le in H2. lia. }
+  assert (HT' : Toks next_token (render_noeol last) SStartLine (line_tokens_noeol last) rem st)
+    by (apply toks_cap; [exact HT|lia]).
+  assert (HE' : is_end (next_token rem st))
+    by (rewrite next_token_cap_refines; [exact HE|]; apply next_token_short; lia).
+  exact (zone_last_line next_token good_short GT next_token_ok o lines last rs rem st Hl HT' HE' Z Hok Hd).
 Qed.
 
 (* ------------------------------------------------------------------ *)
